@@ -164,12 +164,26 @@ fn main() {
     let mut t = Tally::new();
     for base in ["p", "p-q", "nb", "a-nb1", "é", "p-1.0nb3"] {
         for v0 in ["1.0", "", "2nb7x", "1.0NB4"] {
-            for r in ["999999999999999999", "100000000000000000", "000000000000000007", "9223372036854775"] {
+            for r in ["999999999999999999", "100000000000000000", "000000000000000007", "9223372036854775", "4294967295", "4294967296", "5000000000", "2147483648", "65536", "99999999999"] {
                 t.states += 1;
                 check(&mut t, &format!("{}-{}nb{}", base, v0, r));
             }
         }
     }
     run.merge(t);
+    // scale: long names
+    {
+        let mut t = Tally::new();
+        for n in [16usize, 17, 64, 255, 256, 1000, 70_000] {
+            for unit in ["a-", "nb1-", "-", "é-", "1.0nb2-", "x"] {
+                for tail in ["1.0", "1.0nb7", "nb3nb4", "", "2nb000000000000000012"] {
+                    t.states += 1;
+                    check(&mut t, &format!("{}{}", unit.repeat(n), tail));
+                }
+            }
+        }
+        run.bound("scale: names built from 16..70000 repetitions of six units followed by five version tails");
+        run.merge(t);
+    }
     run.finish();
 }
